@@ -125,6 +125,11 @@ class C02(core.Prop):
         # the same cases driven through from_graph with a base graph whose node keys are not 0..n-1
         for s in mc[::(4 if tier == 'quick' else 3)]:
             out.append({'mode': 'mol', 'case': s, 'graph_keys': 'offset'})
+        # ... and with the reader's keys but nodes and edges inserted in another order
+        for s in mc[1::(3 if tier == 'quick' else 2)]:
+            out.append({'mode': 'mol', 'case': s, 'graph_keys': 'rev'})
+        for base in bases[:6]:
+            out.append({'mode': 'names', 'g': base, 'defs': [FRAGS_AA[0], FRAGS_AA[6]], 'aa': True, 'graph_keys': 'rev'})
         # shared atoms: membership and member graphs as sets (copy-of-template is the subject of C10)
         from .c10 import PROP as C10P
         sc = [s for s in C10P.shapes(tier) if s.get('mode') != 'coarse']
@@ -157,7 +162,7 @@ class C02(core.Prop):
                 meta, mol = M.resolve.MoleculeResolver.from_graph(frag, g, last_all_atom=aa).resolve()
                 return {'meta': pl.meta_data(meta), 'mol': pl.graph_data(mol)}
             return core.guard(run)
-        return core.guard(pl.run_resolver, M, inp['text'], last_all_atom=aa)
+        return core.guard(pl.run_resolver, M, inp['text'], last_all_atom=aa, entry=('graph_rev' if shape.get('graph_keys') == 'rev' else 'string'))
 
     @staticmethod
     def _split(text):
